@@ -160,6 +160,7 @@ type Pool struct {
 	real  sync.Pool
 	items []any // manually managed (no append/copy: the runtime's slice helpers are race-instrumented even under //go:norace)
 	n     int
+	outs  [8]unsafe.Pointer // data words of objects currently checked out (best effort, for the steering probe)
 	out   int64
 	reg   bool
 }
@@ -214,6 +215,23 @@ func (p *Pool) Get() any {
 		p.n--
 		verifsim.RaceAcquire(poolRaceAddr(x))
 	}
+	if x != nil {
+		// An object that is handed out while another user still has it (it was put back twice): nothing is judged
+		// here, but the scheduler is told to interleave the two users as finely as it can for a while.
+		w := (*[2]unsafe.Pointer)(unsafe.Pointer(&x))[1]
+		free := -1
+		for i := range p.outs {
+			if p.outs[i] == w {
+				verifsim.PoolSharedOut()
+			}
+			if p.outs[i] == nil && free < 0 {
+				free = i
+			}
+		}
+		if free >= 0 {
+			p.outs[free] = w
+		}
+	}
 	p.out++
 	verifsim.PoolOut(p.out)
 	return x
@@ -230,6 +248,13 @@ func (p *Pool) Put(x any) {
 	}
 	p.register()
 	p.out--
+	w := (*[2]unsafe.Pointer)(unsafe.Pointer(&x))[1]
+	for i := range p.outs {
+		if p.outs[i] == w {
+			p.outs[i] = nil
+			break
+		}
+	}
 	verifsim.RaceReleaseMerge(poolRaceAddr(x))
 	if verifsim.PoolPutDecision() {
 		if p.n == len(p.items) {
